@@ -71,6 +71,9 @@ type weightUse struct {
 	CodeIdx  []int      // positions of the code arguments in ArgExprs
 	Table    ast.Expr   // base of a direct lookup table[code]...[code]
 	name     string
+	// a method of a named code type (`func (c ciaCode) weight() float64`): the
+	// first code is the receiver
+	Method bool
 }
 
 func (u weightUse) Name() string {
@@ -103,6 +106,19 @@ func (u weightUse) eval(p *Pkg, codes []int) (Val, error) {
 		return v, nil
 	}
 	fd := p.FuncObj[u.Fn]
+	if u.Method {
+		ro := p.recvObj(fd)
+		if ro == nil || len(codes) == 0 {
+			return Val{}, undecidedf(u.Call, "weight method without a named receiver")
+		}
+		child := ce.child()
+		child.vars[ro] = vInt(int64(codes[0]))
+		var args []Val
+		for _, c := range codes[1:] {
+			args = append(args, vInt(int64(c)))
+		}
+		return child.callFuncIn(fd, args, u.Call)
+	}
 	if u.ArgExprs == nil {
 		var args []Val
 		for _, c := range codes {
@@ -352,23 +368,69 @@ func (p *Pkg) findMod() (*types.Func, string) {
 			return nil, why
 		}
 	}
+	// the method form: `func (m modified) or(base T) T` — the receiver is the Modified code
+	for fn, fd := range p.FuncObj {
+		if fd.Recv == nil || fd.Body == nil {
+			continue
+		}
+		sig := fn.Type().(*types.Signature)
+		if sig.Recv() == nil || p.isTPtrOrVal(sig.Recv().Type()) || !isUint8(sig.Recv().Type()) || sig.Params().Len() != 1 || sig.Results().Len() != 1 ||
+			!isUint8(sig.Params().At(0).Type()) || !isUint8(sig.Results().At(0).Type()) {
+			continue
+		}
+		ro := p.recvObj(fd)
+		if ro == nil {
+			continue
+		}
+		ok := true
+		for b := 0; b < 8 && ok; b++ {
+			for m := 0; m < 8 && ok; m++ {
+				ce := newCEnv(p, nil).child()
+				ce.vars[ro] = vInt(int64(m))
+				v, err := ce.callFuncIn(fd, []Val{vInt(int64(b))}, fd)
+				want := int64(b)
+				if m != 0 {
+					want = int64(m - 1)
+				}
+				if err != nil || v.K != VInt || v.I != want {
+					ok = false
+				}
+			}
+		}
+		if ok {
+			return fn, ""
+		}
+	}
 	return nil, "no func(base, modified uint8) uint8 with the effective-value truth table found"
 }
 
 func (e *sEnv) fail(n ast.Node, f string, a ...any) error { return undecidedf(n, f, a...) }
 
 func calleeOf(info *types.Info, call *ast.CallExpr) *types.Func {
+	// the declared function: an instantiated generic function or method resolves to its origin
+	orig := func(fn *types.Func) *types.Func {
+		if fn != nil {
+			return fn.Origin()
+		}
+		return nil
+	}
 	switch f := call.Fun.(type) {
 	case *ast.Ident:
 		fn, _ := info.Uses[f].(*types.Func)
-		return fn
+		return orig(fn)
 	case *ast.SelectorExpr:
 		if sel := info.Selections[f]; sel != nil {
 			fn, _ := sel.Obj().(*types.Func)
-			return fn
+			return orig(fn)
 		}
 		fn, _ := info.Uses[f.Sel].(*types.Func)
-		return fn
+		return orig(fn)
+	case *ast.IndexExpr:
+		// explicit instantiation f[T](…)
+		if id, ok := f.X.(*ast.Ident); ok {
+			fn, _ := info.Uses[id].(*types.Func)
+			return orig(fn)
+		}
 	case *ast.ParenExpr:
 		return nil
 	}
@@ -405,9 +467,22 @@ func (e *sEnv) codeOf(x ast.Expr) (codeSym, error) {
 	}
 	if call, ok := x.(*ast.CallExpr); ok {
 		fn := calleeOf(p.Info, call)
-		if fn != nil && fn == e.c.modFn && len(call.Args) == 2 {
-			a, errA := e.codeOf(call.Args[0])
-			b, errB := e.codeOf(call.Args[1])
+		isModMethod := false
+		var modRecv ast.Expr
+		if fn != nil && fn == e.c.modFn && len(call.Args) == 1 {
+			if se, ok := call.Fun.(*ast.SelectorExpr); ok {
+				isModMethod, modRecv = true, se.X
+			}
+		}
+		if fn != nil && fn == e.c.modFn && (len(call.Args) == 2 || isModMethod) {
+			baseArg, modArg := call.Args[0], ast.Expr(nil)
+			if isModMethod {
+				modArg = modRecv
+			} else {
+				modArg = call.Args[1]
+			}
+			a, errA := e.codeOf(baseArg)
+			b, errB := e.codeOf(modArg)
 			site := modSite{Call: call, In: e.c.curFn}
 			if errA != nil || errB != nil {
 				site.Why = "an argument of the effective-value helper is not a whole metric code"
@@ -656,6 +731,131 @@ func (e *sEnv) ex(x ast.Expr) (*Ex, error) {
 			return nil, e.fail(x, "no body for %s", fn.Name())
 		}
 		sig := fn.Type().(*types.Signature)
+		// weight method of a named code type: c.weight(), pr.weight(scope)
+		if sig.Recv() != nil && isUint8(sig.Recv().Type()) && !p.isTPtrOrVal(sig.Recv().Type()) && sig.Results().Len() == 1 && isFloat(sig.Results().At(0).Type()) && p.isLeafHelper(fd) {
+			if se, ok := n.Fun.(*ast.SelectorExpr); ok {
+				all8 := true
+				for i := 0; i < sig.Params().Len(); i++ {
+					if !isUint8(sig.Params().At(i).Type()) {
+						all8 = false
+					}
+				}
+				if all8 {
+					rc, err := e.codeOf(se.X)
+					if err != nil {
+						return nil, err
+					}
+					cs := []codeSym{rc}
+					names := []string{rc.Name()}
+					for _, a := range n.Args {
+						c, err := e.codeOf(a)
+						if err != nil {
+							return nil, err
+						}
+						cs = append(cs, c)
+						names = append(names, c.Name())
+					}
+					e.c.uses = append(e.c.uses, weightUse{Fn: fn, Args: cs, Call: n, Method: true, name: types.TypeString(sig.Recv().Type(), func(*types.Package) string { return "" }) + "." + fn.Name()})
+					return mkSym("W(" + strings.Join(names, "|") + ")"), nil
+				}
+			}
+		}
+		// a method of a local record of metric codes (m.impact(requirements)): inlined with
+		// the record as receiver
+		if sig.Recv() != nil && !p.isTPtrOrVal(sig.Recv().Type()) && codeRecord(derefType(sig.Recv().Type())) != nil {
+			if se, ok := n.Fun.(*ast.SelectorExpr); ok && e.depth <= 10 {
+				rec, err := e.recordOf(se.X)
+				if err != nil {
+					return nil, err
+				}
+				ro := p.recvObj(fd)
+				if ro == nil {
+					return nil, e.fail(x, "method without a named receiver")
+				}
+				callee := &sEnv{c: e.c, vars: map[types.Object]*Ex{}, codes: map[types.Object]codeSym{}, depth: e.depth + 1}
+				callee.recs = map[types.Object]map[string]codeSym{ro: rec}
+				params := paramObjs(info, fd)
+				if len(params) != len(n.Args) {
+					return nil, e.fail(x, "arity")
+				}
+				for i, po := range params {
+					switch {
+					case isUint8(po.Type()):
+						c, err := e.codeOf(n.Args[i])
+						if err != nil {
+							return nil, err
+						}
+						callee.codes[po] = c
+					case codeRecord(po.Type()) != nil:
+						r2, err := e.recordOf(n.Args[i])
+						if err != nil {
+							return nil, err
+						}
+						callee.recs[po] = r2
+					default:
+						v, err := e.ex(n.Args[i])
+						if err != nil {
+							return nil, err
+						}
+						callee.vars[po] = v
+					}
+				}
+				r, returned, err := callee.block(fd.Body.List)
+				if err != nil {
+					return nil, err
+				}
+				if !returned {
+					return nil, e.fail(x, "%s does not return on every path", fn.Name())
+				}
+				return r, nil
+			}
+		}
+		// a method of a local record of floats (temporalWeights{e, rl, rc}.apply(score)): inlined
+		// with the record as receiver
+		if sig.Recv() != nil && !p.isTPtrOrVal(sig.Recv().Type()) && floatRecord(sig.Recv().Type()) != nil {
+			if se, ok := n.Fun.(*ast.SelectorExpr); ok && e.depth <= 10 {
+				rv, err := e.ex(se.X)
+				if err != nil {
+					return nil, err
+				}
+				if rv.Op != "rec" {
+					return nil, e.fail(x, "method call on something that is not a record of floats")
+				}
+				callee := &sEnv{c: e.c, vars: map[types.Object]*Ex{}, codes: map[types.Object]codeSym{}, depth: e.depth + 1}
+				ro := p.recvObj(fd)
+				if ro == nil {
+					return nil, e.fail(x, "method without a named receiver")
+				}
+				callee.vars[ro] = rv
+				params := paramObjs(info, fd)
+				if len(params) != len(n.Args) {
+					return nil, e.fail(x, "arity")
+				}
+				for i, po := range params {
+					if isUint8(po.Type()) {
+						c, err := e.codeOf(n.Args[i])
+						if err != nil {
+							return nil, err
+						}
+						callee.codes[po] = c
+						continue
+					}
+					v, err := e.ex(n.Args[i])
+					if err != nil {
+						return nil, err
+					}
+					callee.vars[po] = v
+				}
+				r, returned, err := callee.block(fd.Body.List)
+				if err != nil {
+					return nil, err
+				}
+				if !returned {
+					return nil, e.fail(x, "%s does not return on every path", fn.Name())
+				}
+				return r, nil
+			}
+		}
 		// weight helper: all parameters uint8, result float64, not a method
 		if sig.Recv() == nil && sig.Params().Len() >= 1 && sig.Results().Len() == 1 && isFloat(sig.Results().At(0).Type()) && p.isLeafHelper(fd) {
 			all8 := true
@@ -811,7 +1011,83 @@ func (e *sEnv) ex(x ast.Expr) (*Ex, error) {
 		}
 		return r, nil
 	}
+	if cl, ok := x.(*ast.CompositeLit); ok {
+		if tv, ok := info.Types[cl]; ok {
+			if st := floatRecord(tv.Type); st != nil {
+				rec := &Ex{Op: "rec"}
+				vals := map[string]*Ex{}
+				for i, el := range cl.Elts {
+					name, val := "", el
+					if kv, ok := el.(*ast.KeyValueExpr); ok {
+						id, ok := kv.Key.(*ast.Ident)
+						if !ok {
+							return nil, e.fail(el, "record literal key")
+						}
+						name, val = id.Name, kv.Value
+					} else {
+						name = st.Field(i).Name()
+					}
+					v, err := e.ex(val)
+					if err != nil {
+						return nil, err
+					}
+					vals[name] = v
+				}
+				for i := 0; i < st.NumFields(); i++ {
+					f := st.Field(i).Name()
+					v := vals[f]
+					if v == nil {
+						v = mkConst(new(big.Rat))
+					}
+					rec.Fields = append(rec.Fields, f)
+					rec.Args = append(rec.Args, v)
+				}
+				return rec, nil
+			}
+		}
+	}
+	if se, ok := x.(*ast.SelectorExpr); ok {
+		if sel := info.Selections[se]; sel != nil && sel.Kind() == types.FieldVal && floatRecord(sel.Recv()) != nil {
+			rv, err := e.ex(se.X)
+			if err != nil {
+				return nil, err
+			}
+			if rv.Op == "rec" {
+				for i, f := range rv.Fields {
+					if f == se.Sel.Name {
+						return rv.Args[i], nil
+					}
+				}
+			}
+			return nil, e.fail(x, "field of something that is not a record of floats")
+		}
+	}
 	return nil, e.fail(x, "expression %T outside the formula language", x)
+}
+
+func derefType(t types.Type) types.Type {
+	if pt, ok := t.Underlying().(*types.Pointer); ok {
+		return pt.Elem()
+	}
+	return t
+}
+
+// floatRecord returns the struct type when t (or what it points to) is a
+// struct whose fields are all floats.
+func floatRecord(t types.Type) *types.Struct {
+	if pt, ok := t.Underlying().(*types.Pointer); ok {
+		t = pt.Elem()
+	}
+	st, ok := t.Underlying().(*types.Struct)
+	if !ok || st.NumFields() == 0 || st.NumFields() > 16 {
+		return nil
+	}
+	for i := 0; i < st.NumFields(); i++ {
+		if !isFloat(st.Field(i).Type()) {
+			return nil
+		}
+	}
+	return st
 }
 
 // cond evaluates a boolean expression to a canonical condition.
@@ -843,6 +1119,9 @@ func (e *sEnv) cond(x ast.Expr) (*Cnd, bool, error) {
 					hasCode = true
 				}
 				if _, isRec := e.recs[identObj(info, id)]; isRec {
+					hasCode = true
+				}
+				if _, isBV := e.bv[identObj(info, id)]; isBV {
 					hasCode = true
 				}
 			}
@@ -956,6 +1235,36 @@ func (e *sEnv) cond(x ast.Expr) (*Cnd, bool, error) {
 			}
 		}
 	}
+	// byte-valued locals that hold receiver bits (u0 := c.u0): the metrics owning those
+	// bits are inputs, the local's value follows from the receiver bytes
+	var bvLocals []types.Object
+	{
+		sm := p.SetModel()
+		seenBV := map[types.Object]bool{}
+		ast.Inspect(x, func(n ast.Node) bool {
+			id, ok := n.(*ast.Ident)
+			if !ok {
+				return true
+			}
+			o := identObj(info, id)
+			v, isBV := e.bv[o]
+			if !isBV || seenBV[o] {
+				return true
+			}
+			seenBV[o] = true
+			bvLocals = append(bvLocals, o)
+			for _, b := range v {
+				if b.K != BIn {
+					continue
+				}
+				if own := sm.Owner[BitPos{b.A, b.B}]; own != nil && !seen[own.Label] {
+					seen[own.Label] = true
+					inputs = append(inputs, input{name: own.Label, values: p.atomDomain(own.Label), metric: own.Label})
+				}
+			}
+			return true
+		})
+	}
 	if len(inputs) == 0 {
 		return nil, false, e.fail(x, "condition without metric inputs")
 	}
@@ -986,6 +1295,23 @@ func (e *sEnv) cond(x ast.Expr) (*Cnd, bool, error) {
 				return err
 			}
 			ce := newCEnv(p, bytes)
+			for _, o := range bvLocals {
+				val := int64(0)
+				for j, b := range e.bv[o] {
+					switch b.K {
+					case BZero:
+					case BOne:
+						val |= 1 << uint(j)
+					case BIn:
+						if b.A < len(bytes) && bytes[b.A]&(1<<uint(b.B)) != 0 {
+							val |= 1 << uint(j)
+						}
+					default:
+						return e.fail(x, "byte local %s holds bits that are not receiver bits", o.Name())
+					}
+				}
+				ce.vars[o] = vInt(val)
+			}
 			byName := map[string]int{}
 			for k, in := range inputs {
 				byName[in.name] = cur[k]
@@ -1028,6 +1354,47 @@ func (e *sEnv) cond(x ast.Expr) (*Cnd, bool, error) {
 	}
 	if err := rec(0); err != nil {
 		return nil, false, err
+	}
+	// inputs the truth value does not depend on (a byte copy carries the bits of
+	// several metrics, the test looks at one) are projected out
+	for changed := true; changed && len(inputs) > 1; {
+		changed = false
+		for drop := range inputs {
+			sat := map[string]bool{}
+			for _, t := range tuples {
+				sat[strings.Join(t, "\x00")] = true
+			}
+			independent := true
+			for _, t := range tuples {
+				for _, v := range inputs[drop].values {
+					alt := append([]string(nil), t...)
+					alt[drop] = v
+					if !sat[strings.Join(alt, "\x00")] {
+						independent = false
+						break
+					}
+				}
+				if !independent {
+					break
+				}
+			}
+			if !independent {
+				continue
+			}
+			seenT := map[string]bool{}
+			var nt [][]string
+			for _, t := range tuples {
+				r := append(append([]string(nil), t[:drop]...), t[drop+1:]...)
+				if k := strings.Join(r, "\x00"); !seenT[k] {
+					seenT[k] = true
+					nt = append(nt, r)
+				}
+			}
+			tuples = nt
+			inputs = append(append([]input(nil), inputs[:drop]...), inputs[drop+1:]...)
+			changed = true
+			break
+		}
 	}
 	var names []string
 	for _, in := range inputs {
@@ -1098,6 +1465,82 @@ func (e *sEnv) cond(x ast.Expr) (*Cnd, bool, error) {
 	}
 	c, swap := metricAtom(names, tuples, p.atomDomain)
 	return c, swap, nil
+}
+
+// assignParallel: `a, b = x, y` — every right-hand side is evaluated in the
+// state before the statement, then the assignments take place (Go's order of
+// evaluation for tuple assignments).
+func (e *sEnv) assignParallel(lhs, rhs []ast.Expr) error {
+	if len(lhs) == 1 {
+		return e.assign(lhs[0], rhs[0])
+	}
+	before := e.clone()
+	for k := range lhs {
+		tmp := before.clone()
+		if err := tmp.assign(lhs[k], rhs[k]); err != nil {
+			return err
+		}
+		// carry the one assigned object (or array element) over
+		target := lhs[k]
+		if ix, ok := target.(*ast.IndexExpr); ok {
+			if o, i, ok := tmp.arrayElem(ix); ok {
+				if e.arrs == nil || e.arrs[o] == nil {
+					return e.fail(target, "tuple assignment to an element of an unknown array")
+				}
+				e.arrs[o][i] = tmp.arrs[o][i]
+				continue
+			}
+			return e.fail(target, "tuple assignment target")
+		}
+		id, ok := target.(*ast.Ident)
+		if !ok {
+			return e.fail(target, "tuple assignment target")
+		}
+		if id.Name == "_" {
+			continue
+		}
+		o := identObj(e.c.p.Info, id)
+		if o == nil {
+			return e.fail(target, "unresolved identifier")
+		}
+		delete(e.vars, o)
+		delete(e.codes, o)
+		delete(e.bools, o)
+		delete(e.bv, o)
+		delete(e.recs, o)
+		delete(e.arrs, o)
+		if v, ok := tmp.vars[o]; ok {
+			e.vars[o] = v
+		}
+		if v, ok := tmp.codes[o]; ok {
+			e.codes[o] = v
+		}
+		if v, ok := tmp.bools[o]; ok {
+			if e.bools == nil {
+				e.bools = map[types.Object]boolVal{}
+			}
+			e.bools[o] = v
+		}
+		if v, ok := tmp.bv[o]; ok {
+			if e.bv == nil {
+				e.bv = map[types.Object]BV{}
+			}
+			e.bv[o] = v
+		}
+		if v, ok := tmp.recs[o]; ok {
+			if e.recs == nil {
+				e.recs = map[types.Object]map[string]codeSym{}
+			}
+			e.recs[o] = v
+		}
+		if v, ok := tmp.arrs[o]; ok {
+			if e.arrs == nil {
+				e.arrs = map[types.Object][]*Ex{}
+			}
+			e.arrs[o] = v
+		}
+	}
+	return nil
 }
 
 func (e *sEnv) assign(lhs ast.Expr, rhs ast.Expr) error {
@@ -1261,10 +1704,8 @@ func (e *sEnv) runAccessor(call *ast.CallExpr, fn *types.Func) (*sEnv, *ast.Func
 			if (st.Tok != token.ASSIGN && st.Tok != token.DEFINE) || len(st.Lhs) != len(st.Rhs) {
 				return nil, nil, nil, e.fail(s, "accessor statement outside the formula language")
 			}
-			for k := range st.Lhs {
-				if err := callee.assign(st.Lhs[k], st.Rhs[k]); err != nil {
-					return nil, nil, nil, err
-				}
+			if err := callee.assignParallel(st.Lhs, st.Rhs); err != nil {
+				return nil, nil, nil, err
 			}
 		case *ast.ReturnStmt:
 			if i != len(fd.Body.List)-1 {
@@ -1495,10 +1936,8 @@ func (e *sEnv) block(stmts []ast.Stmt) (*Ex, bool, error) {
 			if len(st.Lhs) != len(st.Rhs) {
 				return nil, false, e.fail(s, "tuple assignment")
 			}
-			for k := range st.Lhs {
-				if err := e.assign(st.Lhs[k], st.Rhs[k]); err != nil {
-					return nil, false, err
-				}
+			if err := e.assignParallel(st.Lhs, st.Rhs); err != nil {
+				return nil, false, err
 			}
 		case *ast.ReturnStmt:
 			if len(st.Results) == 0 && len(e.results) > 0 {
@@ -1562,12 +2001,12 @@ func (e *sEnv) block(stmts []ast.Stmt) (*Ex, bool, error) {
 			}
 			var ite func(a, b *Ex) *Ex
 			ite = func(a, b *Ex) *Ex {
-				if a != nil && b != nil && a.Op == "tuple" && b.Op == "tuple" && len(a.Args) == len(b.Args) {
+				if a != nil && b != nil && (a.Op == "tuple" || a.Op == "rec") && b.Op == a.Op && len(a.Args) == len(b.Args) {
 					parts := make([]*Ex, len(a.Args))
 					for k := range a.Args {
 						parts[k] = ite(a.Args[k], b.Args[k])
 					}
-					return &Ex{Op: "tuple", Args: parts}
+					return &Ex{Op: a.Op, Args: parts, Fields: a.Fields}
 				}
 				if swap {
 					return mkIte(c, b, a)
